@@ -62,6 +62,7 @@ static int nyquist_bw(opus_int32 Fs)
     !((st)->mode == MODE_HYBRID && (st)->bandwidth <= OPUS_BANDWIDTH_WIDEBAND) && !((st)->mode == MODE_SILK_ONLY && (st)->bandwidth > OPUS_BANDWIDTH_WIDEBAND) && \
     ((frame_size) == (st)->Fs / 400 || (frame_size) == (st)->Fs / 200 || (frame_size) == (st)->Fs / 100 || (frame_size) == (st)->Fs / 50 || \
      ((st)->mode == MODE_SILK_ONLY && ((frame_size) == (st)->Fs / 25 || (frame_size) == 3 * (st)->Fs / 50))) && \
-    ((frame_size) >= (st)->Fs / 100 || (st)->mode == MODE_CELT_ONLY) && (max_data_bytes) >= 1 && (max_data_bytes) <= 1276 && \
+    ((frame_size) >= (st)->Fs / 100 || (st)->mode == MODE_CELT_ONLY) && (max_data_bytes) >= 1 && (max_data_bytes) <= 4000 && \
+    /* a sub-frame of a multi-frame packet may get a budget above 1276 (the MDCT layer clamps its own output to 1275 bytes) */ \
     (st)->bitrate_bps >= 1 && (long long)(st)->bitrate_bps * (frame_size) <= 2147483647LL)
 #endif
